@@ -149,6 +149,17 @@ func build(s TokSpec) builtTok {
 	case "string":
 		pl["exp"] = "tomorrow"
 		b.mustFail = true
+	case "instant":
+		// expires at the next full second; build() returns once the clock has reached it, so from the caller's
+		// point of view the token is at (or just past) its expiry instant: "exp" is the time ON or after which a
+		// token must not be accepted, so there is nothing fuzzy about this one however long the caller then takes
+		pl["exp"] = now + 1
+		b.mustFail = true
+		defer func() {
+			for time.Now().Unix() < now+1 {
+				time.Sleep(3 * time.Millisecond)
+			}
+		}()
 	case "float":
 		pl["exp"] = float64(now) + 7200.5
 	}
@@ -829,6 +840,50 @@ func TestC11VerifyGenerated(t *testing.T) {
 			t.Fatalf("C11 violated: %s", v)
 		}
 	})
+}
+
+// TestC11ExpiryInstant: a correctly signed token presented in the very second its "exp" names (and later) is
+// expired: standalone verification and the server side of the exchange both refuse it.
+func TestC11ExpiryInstant(t *testing.T) {
+	rounds := kit.Scale(2, 8)
+	var mu sync.Mutex
+	bad := 0
+	var specs []TokSpec
+	for r := 0; r < rounds; r++ {
+		for _, k := range []string{"named", "pool-nokid", "pool-kid"} {
+			specs = append(specs, TokSpec{k, "ok", "instant", "recent"})
+		}
+	}
+	var wg sync.WaitGroup
+	for i, spec := range specs {
+		wg.Add(1)
+		go func(i int, spec TokSpec) {
+			defer wg.Done()
+			time.Sleep(time.Duration(i*137%900) * time.Millisecond) // spread the attempts over the second
+			bt := build(spec)
+			at := time.Now()
+			_, err := security.VerifyIDToken(bt.full, verifyCfg())
+			v := ""
+			if err == nil {
+				v = fmt.Sprintf("VerifyIDToken accepted a token %.3f s after the start of the second its exp claim names (key kind %s)", float64(at.UnixNano()%1e9)/1e9, spec.Key)
+			}
+			if v == "" {
+				v = runClientCase(ClientCase{Tok: spec, KnowsSig: true, Claim: "sub"})
+			}
+			ev.Case("expiry-instant", fmt.Sprintf("instant:%d", i))
+			if v != "" {
+				mu.Lock()
+				if bad < 4 {
+					bad++
+					kit.Violation("C11", v, map[string]any{"part": "expiry-instant", "spec": spec})
+					t.Errorf("C11 violated: %s", v)
+				}
+				mu.Unlock()
+			}
+		}(i, spec)
+	}
+	wg.Wait()
+	ev.Exhaustive(fmt.Sprintf("%d tokens presented at their expiry instant: standalone verification and a full TOKEN handshake each", len(specs)))
 }
 
 // TestC11VerifyMutations: every single-character mutation (3 substitutes) of two valid tokens.
